@@ -112,8 +112,14 @@ def replay_alignment(cases, chk):
         chk.case(('align',) + key, nontrivial=len({(b['lo'], b['hi']) for b in c['before']}) > 1)
         try:
             align_grids(oms_list)
+            # occupancy written AFTER the alignment must land at its frequency: position of index n through geti()
+            for o, post in zip(oms_list, c.get('post', [[]] * len(oms_list))):
+                b = o.spectrum_bitmap
+                for a, z in post:
+                    b.bitmap[b.geti(a):b.geti(z) + 1] = [BitmapValue.OCCUPIED] * (z - a + 1)
             got = [dict(lo=o.spectrum_bitmap.n_min, hi=o.spectrum_bitmap.n_max, idx=list(o.spectrum_bitmap.freq_index),
-                        val=[name[v] for v in o.spectrum_bitmap.bitmap]) for o in oms_list]
+                        val=[name[v] for v in o.spectrum_bitmap.bitmap],
+                        pos=[o.spectrum_bitmap.geti(n) for n in o.spectrum_bitmap.freq_index]) for o in oms_list]
         except Exception as e:                                  # noqa
             got = f'EXC {type(e).__name__}: {e}'
         if got != c['after']:
@@ -138,10 +144,10 @@ class BandBench:
     def run(self, lay, name):
         from gnpy.topology.spectrum_assignment import build_oms_list
         from gnpy.core.elements import Edfa, Roadm
-        # group 1: A->B, group 2: B->A, group 3: both directions of B-C
+        # group 1: link A-B, group 2: link B-C; the reverse direction carries the two amplifiers in the other order
         nodes = node_map(self.net)
-        groups = {('roadm A', 'roadm B'): lay[0], ('roadm B', 'roadm A'): lay[1],
-                  ('roadm B', 'roadm C'): lay[2], ('roadm C', 'roadm B'): lay[2]}
+        groups = {('roadm A', 'roadm B'): lay[0], ('roadm B', 'roadm A'): lay[0][::-1],
+                  ('roadm B', 'roadm C'): lay[1], ('roadm C', 'roadm B'): lay[1][::-1]}
         for (a, b), amps in groups.items():
             chain = []
             n = next(x for x in self.net.successors(nodes[a]) if f'to {b[6:]}' in x.uid or f'{a[6:]} -> {b[6:]}' in x.uid
@@ -241,7 +247,8 @@ def run(chk):
     quick = chk.tier == 'quick'
     # ---- B1
     cfg = (tlc.SPEC / 'MC_OmsMap.cfg').read_text()
-    r = tlc.run('MC_OmsMap', cfg_text=cfg if not quick else cfg, timeout=900, tag='c15-align')
+    r = tlc.run('MC_OmsMap', cfg_text=cfg if not quick else cfg.replace('MaxOcc = 2', 'MaxOcc = 1'), timeout=1800,
+                tag='c15-align')
     chk.add_mc('MC_OmsMap (Build/Occupy/Align)', r)
     r = tlc.run('MC_OmsBands', cfg_text=(tlc.SPEC / 'MC_OmsBands.cfg').read_text() + 'INVARIANT Emit\n', timeout=900,
                 tag='c15-bands')
@@ -258,8 +265,8 @@ def run(chk):
     r = tlc.run('MC_OmsMap', cfg_text=acfg, timeout=900, tag='c15-emit')
     chk.add_mc('MC_OmsMap emission', r)
     cases = r.emitted
-    if quick and len(cases) > 6000:
-        cases = rng.sample(cases, 6000)
+    if len(cases) > (6000 if quick else 150000):
+        cases = rng.sample(cases, 6000 if quick else 150000)
     chk.traces += replay_alignment(cases, chk)
     chk.cov['b2_alignment_cases'] = len(cases)
     if cases:
